@@ -132,6 +132,7 @@ func runHarness(l *loaded, spec HarnessSpec, trace bool, dumpDir string) *Harnes
 	}
 	m.Deadline = time.Now().Add(time.Duration(budget) * time.Second)
 	m.Deterministic = !spec.Symbolic
+	m.PollMiss = spec.Symbolic || spec.SymTo > spec.SymFrom || strings.Contains(spec.Policy, "pollmiss")
 	m.NoPrune = spec.NoPrune
 
 	// pruning solver: assumptions asserted as they appear
